@@ -1017,7 +1017,7 @@ def check(ctx):
                           'external callee %s is in no class (total/alloc/partial/user/third-party): a new dependency '
                           'on library behaviour must be classified' % name, site=raws[0]['span'])
         rep.ok('C06-R1', 'crate', 'enumerated panic sites and call sites', facts=dict(counts, generated_skipped=skipped))
-        floors = {'base': (17, 18, 30), 'wire': (19, 20, 35), 'nostd': (17, 15, 25), 'all': (19, 20, 35)}[cfgname]
+        floors = {'base': (15, 15, 30), 'wire': (16, 16, 33), 'nostd': (15, 12, 18), 'all': (16, 16, 33)}[cfgname]
         rep.floor('C06-R1', counts['assert'], floors[0], 'Assert terminators (%s)' % cfgname)
         rep.floor('C06-R1', counts['panic'], floors[1], 'core::panicking call sites (%s)' % cfgname)
         rep.floor('C06-R1', counts['partial'], floors[2], 'calls to partial library routines (%s)' % cfgname)
